@@ -49,19 +49,17 @@ pub fn float_token_value(token: &LuaSyntaxToken) -> Result<f64, LuaParseError> {
         };
 
         let mut value = integer_part as f64 + fraction_value;
-        if !exponent_part.is_empty()
-            && let Ok(exp) = exponent_part.parse::<i32>()
-        {
-            value *= 2f64.powi(exp);
+        if exponent_position.is_some() {
+            value *= 2f64.powi(parse_exponent(exponent_part, token)?);
         }
         value
     } else {
-        let (float_part, exponent_part) =
-            if let Some(pos) = text.find('e').or_else(|| text.find('E')) {
-                (&text[..pos], &text[(pos + 1)..])
-            } else {
-                (text.as_str(), "")
-            };
+        let exponent_position = text.find('e').or_else(|| text.find('E'));
+        let (float_part, exponent_part) = if let Some(pos) = exponent_position {
+            (&text[..pos], &text[(pos + 1)..])
+        } else {
+            (text.as_str(), "")
+        };
 
         let mut value = float_part.parse::<f64>().map_err(|e| {
             LuaParseError::new(
@@ -75,15 +73,30 @@ pub fn float_token_value(token: &LuaSyntaxToken) -> Result<f64, LuaParseError> {
             )
         })?;
 
-        if !exponent_part.is_empty()
-            && let Ok(exp) = exponent_part.parse::<i32>()
-        {
-            value *= 10f64.powi(exp);
+        if exponent_position.is_some() {
+            value *= 10f64.powi(parse_exponent(exponent_part, token)?);
         }
         value
     };
 
     Ok(value)
+}
+
+/// The digits after `e`/`p`: an optional sign and at least one decimal digit (`1e`, `1e+`, `0x1p` are malformed).
+fn parse_exponent(exponent_part: &str, token: &LuaSyntaxToken) -> Result<i32, LuaParseError> {
+    let digits = exponent_part
+        .strip_prefix(['+', '-'])
+        .unwrap_or(exponent_part);
+    if digits.is_empty() || !digits.bytes().all(|b| b.is_ascii_digit()) {
+        return Err(LuaParseError::new(
+            LuaParseErrorKind::SyntaxError,
+            &t!("malformed number"),
+            token.text_range(),
+        ));
+    }
+
+    // as before, an exponent that does not fit an i32 is not applied
+    Ok(exponent_part.parse::<i32>().unwrap_or(0))
 }
 
 #[derive(Debug, Clone, Copy, PartialEq, Eq)]
